@@ -10,6 +10,7 @@ import (
 	"go/token"
 	"go/types"
 	"sort"
+	"strconv"
 	"strings"
 
 	"golang.org/x/tools/go/ssa"
@@ -488,6 +489,7 @@ func EnumTables(p *load.Prog, r *oblig.Report, rule string, lg *g4.Grammar, back
 		return
 	}
 	strip := ""
+	cutsetTrim := ""
 	containers := map[string]bool{}
 	for _, hd := range p.WithHelpers(ppk, pfd, 2) {
 		ast.Inspect(hd.Body, func(n ast.Node) bool {
@@ -496,6 +498,19 @@ func EnumTables(p *load.Prog, r *oblig.Report, rule string, lg *g4.Grammar, back
 				if sel, ok := x.Fun.(*ast.SelectorExpr); ok && sel.Sel.Name == "ReplaceAll" && len(x.Args) == 3 {
 					if tv, ok := ppk.TypesInfo.Types[x.Args[1]]; ok && tv.Value != nil {
 						strip = constant.StringVal(tv.Value)
+					}
+				}
+				if sel, ok := x.Fun.(*ast.SelectorExpr); ok && sel.Sel.Name == "TrimPrefix" && len(x.Args) == 2 {
+					if tv, ok := ppk.TypesInfo.Types[x.Args[1]]; ok && tv.Value != nil && tv.Value.Kind() == constant.String && strings.HasPrefix(constant.StringVal(tv.Value), "TYPE_") {
+						strip = constant.StringVal(tv.Value)
+					}
+				}
+				// a cut-set trim with the letters of the prefix strips more than the prefix (TIMESTAMP loses its T)
+				if sel, ok := x.Fun.(*ast.SelectorExpr); ok && (sel.Sel.Name == "TrimLeft" || sel.Sel.Name == "Trim" || sel.Sel.Name == "TrimRight") && len(x.Args) == 2 {
+					if tv, ok := ppk.TypesInfo.Types[x.Args[1]]; ok && tv.Value != nil && tv.Value.Kind() == constant.String {
+						if cs := constant.StringVal(tv.Value); strings.ContainsAny(cs, "ABCDEFGHIJKLMNOPQRSTUVWXYZ") {
+							cutsetTrim = p.Pos(x.Pos()) + ": strings." + sel.Sel.Name + "(…, " + strconv.Quote(cs) + ")"
+						}
 					}
 				}
 			case *ast.BinaryExpr:
@@ -521,6 +536,11 @@ func EnumTables(p *load.Prog, r *oblig.Report, rule string, lg *g4.Grammar, back
 	if strip == "" {
 		r.Unknown(rule, "anchor:printer-prefix", p.Pos(pfd.Pos()), "no strings.ReplaceAll(…, <const>, …) found in parseConditionParams")
 		return
+	}
+	if cutsetTrim != "" {
+		r.Bad(rule, "enum-prefix-strip", p.Pos(pfd.Pos()), "an enum name is shortened with a cut-set trim ("+cutsetTrim+"): it removes every leading character of the set, not the prefix, so names that begin with one of its letters after the prefix are misspelled (TIMESTAMP → imestamp) and the output does not parse")
+	} else {
+		r.OK(rule, "enum-prefix-strip", p.Pos(pfd.Pos()), "call-scan", "the enum prefix is removed as a prefix/substring, never as a character set")
 	}
 	names := make([]string, 0, len(enum))
 	for n := range enum {
@@ -847,6 +867,31 @@ func callArgConstsIn(fn *ssa.Function, callees []string, param string) []string 
 	return out
 }
 
+// calleeKinds: the lower-cased names of the edge functions a step (with its helpers) calls.
+func calleeKinds(root *ssa.Function, callees []string) []string {
+	var out []string
+	for _, fn := range stepGroup(root) {
+		for _, b := range fn.Blocks {
+			for _, in := range b.Instrs {
+				call, ok := in.(ssa.CallInstruction)
+				if !ok {
+					continue
+				}
+				callee := call.Common().StaticCallee()
+				if callee == nil {
+					continue
+				}
+				for _, c := range callees {
+					if callee.Name() == c {
+						out = append(out, strings.ToLower(c))
+					}
+				}
+			}
+		}
+	}
+	return out
+}
+
 // Role pairs the plain and the weighted implementation of one translation step.
 type Role struct{ Name, Plain, Weighted string }
 
@@ -897,6 +942,19 @@ func Siblings(p *load.Prog, r *oblig.Report, rule string) {
 			r.Bad(rule, construct, p.Pos(wf.Pos()), fmt.Sprintf("both builders create edge kinds {%s} for %s; the documented kinds are {%s} (0 direct, 1 rewrite, 2 TTU, 3 computed)", pe, role.Name, want[role.Name]))
 		default:
 			r.OK(rule, construct, p.Pos(wf.Pos()), "equal-constant-sets", "{"+pe+"}")
+		}
+		// which way each step creates its edges: add (one edge per occurrence) or upsert (one edge per pair, conditions
+		// collected), guarded by a has-edge test or not — the two builders agree, and with the documented table
+		wantAPI := map[string]string{"rewrite": "addedge", "this": "upsertedge", "computed": "addedge", "ttu": "hasedge,upsertedge"}
+		pa, wa := setKey(calleeKinds(pf, edgeCallees)), setKey(calleeKinds(wf, edgeCallees))
+		construct = "edge-api:" + role.Name
+		switch {
+		case pa != wa:
+			r.Bad(rule, construct, p.Pos(wf.Pos()), fmt.Sprintf("plain builder creates the edges of this step through {%s}, weighted builder through {%s}: one of them collapses repeated operands or duplicates edges", pa, wa))
+		case pa != wantAPI[role.Name]:
+			r.Bad(rule, construct, p.Pos(wf.Pos()), fmt.Sprintf("both builders create the edges of %s through {%s}; documented: {%s} (add = one edge per occurrence, upsert = one edge per pair with its conditions collected)", role.Name, pa, wantAPI[role.Name]))
+		default:
+			r.OK(rule, construct, p.Pos(wf.Pos()), "equal-callee-sets", "{"+pa+"}")
 		}
 		pn, wn := setKey(callArgConsts(pf, nodeCallees, "nodeType")), setKey(callArgConsts(wf, nodeCallees, "nodeType"))
 		construct = "node-kinds:" + role.Name
